@@ -47,6 +47,22 @@ def admissibility(f):
     return table, err_block
 
 
+def finish_contexts(F):
+    """StatementContext variants entered (enter_statement_context) for finish blocks and finish functions"""
+    out = set()
+    for f in F.fns:
+        if f.crate != "aranya_policy_compiler" or f.derived:
+            continue
+        for c in f.calls:
+            if c.name == "enter_statement_context" and len(c.args) > 1 and c.args[1].place is not None:
+                for k, st in f.backward_sources(c.args[1].place.local, through_calls=())[1]:
+                    if k == "stmt" and st.rv_kind() == "agg" and st.rv[1].get("adt", "").endswith("StatementContext"):
+                        v = st.rv[1].get("variant")
+                        if v and v.startswith("Finish"):
+                            out.add(v)
+    return out
+
+
 def run(F, rep, tier):
     rep.explanation = __doc__
     ls = F.fn("aranya_policy_compiler::compile::lower::lower_statements")
@@ -55,10 +71,14 @@ def run(F, rep, tier):
         rep.anchor_missing("lower_statements: (kind, context) match not found")
         return
     rep.note("admissibility table: %s" % table)
+    # "finish contexts" are not frozen by name: they are the contexts that (a) the body of a `finish` block /
+    # a finish function is lowered under and (b) lower_expression gates with check_finish_expression (R7).
+    finish_ctxs = finish_contexts(F)
     for v in WRITES + ("FunctionCall",):
-        rep.check(table.get(v) == ["Finish"], "lower|admit:%s" % v, "K7 admissibility table",
-                  "StmtKind::%s is admitted only in StatementContext::Finish" % v,
-                  "StmtKind::%s is admitted in contexts %s (must be Finish only): fact writes / effects / finish-function calls could run outside a finish block" % (v, table.get(v)), ls.site())
+        got = set(table.get(v) or [])
+        rep.check(bool(got) and "*" not in got and got <= finish_ctxs, "lower|admit:%s" % v, "K7 admissibility table",
+                  "StmtKind::%s is admitted only in finish contexts %s" % (v, sorted(got)),
+                  "StmtKind::%s is admitted in contexts %s, finish contexts are %s: fact writes / effects / finish-function calls could run outside a finish block" % (v, sorted(got), sorted(finish_ctxs)), ls.site())
     rep.check(table.get("Finish") == ["CommandPolicy", "CommandRecall"], "lower|admit:Finish", "K7 admissibility table",
               "finish blocks are admitted only in command policy / recall blocks (%s)" % table.get("Finish"), site=ls.site())
     rep.floor("statement kinds in the table", len(table), 14)
